@@ -30,7 +30,11 @@ ASSUMPTIONS = [
     "error positions of rejected texts are not compared (only 0 <= position <= len and that rendering succeeds)",
     "bytes input is compared only for texts that have a UTF-8 encoding (no lone surrogates)",
     "bytes sources that are not valid UTF-8 must be rejected with GraphQLSyntaxError (position = character offset of the first "
-    "undecodable byte inside the U+FFFD-replaced text, fix C01-B8); decoding itself is not modelled in Lean (only exercised)",
+    "undecodable byte inside the U+FFFD-replaced text, fix C01-B8); strict UTF-8 decoding is modelled (Utf8.lean: decode_encode, "
+    "parse_bytes_eq_text) and compared with Lexer.__init__ and with bytes.decode; the U+FFFD-replaced text of the error is only exercised",
+    "`\"\"` [lookahead != `\"`] (three quotes always open a block string) and IntegerPart `0` [lookahead != Digit] are readings of the "
+    "June-2018 lexical grammar pinned by the suite; Spec/LexicalReadings.lean names them (EmptyStringLookahead, ZeroLookahead) - "
+    "known findings LA3, LA4",
     "optional `{...}` blocks of type-system definitions are read greedily ([lookahead != {], as graphql-js and the 2021 text): the literal "
     "June-2018 grammar is ambiguous there (`type A {b}`); Spec/Grammar.lean takes the greedy reading explicitly (blockV / nla) - known finding LA2",
     "source types: the documented signature is Union[str, bytes]; instances of subclasses of str / bytes are in scope (duck typing), "
@@ -239,6 +243,137 @@ def eof_feature(text):
 
 
 # ---------------------------------------------------------------------------------------------
+# the exact class of L6 (Props/C01_errors_iff.lean, `OpenEscape`), decided on the TEXT by an independent scanner of the
+# June-2018 lexical grammar (with the pinned readings LA1, LA3, LA4): complete tokens and ignored runs, then a quote that
+# does not open a block string, complete string characters, and an escape sequence cut off by the end of the text.
+
+_PUNCT = set("!$()[]{}:=@|&")
+_HEX = set("0123456789abcdefABCDEF")
+_DIG = set("0123456789")
+_NAME0 = set("abcdefghijklmnopqrstuvwxyzABCDEFGHIJKLMNOPQRSTUVWXYZ_")
+
+
+def open_escape(text):
+    """True iff `text` ends inside an open quoted string with a truncated escape (the text-level predicate OpenEscape)."""
+    i, n = 0, len(text)
+    while i < n:
+        c = text[i]
+        if c in "\ufeff\t \n\r,":
+            i += 1
+        elif c == "#":
+            i += 1
+            while i < n and (text[i] >= " " or text[i] == "\t") and text[i] not in "\n\r":
+                i += 1
+        elif c in _PUNCT:
+            i += 1
+        elif c == ".":
+            if text[i:i + 3] != "...":
+                return False
+            i += 3
+        elif text[i:i + 3] == '"""':
+            i += 3
+            while True:
+                if i >= n:
+                    return False
+                if text[i:i + 3] == '"""':
+                    i += 3
+                    break
+                if text[i:i + 4] == '\\"""':
+                    i += 4
+                elif text[i] >= " " or text[i] in "\t\n\r":
+                    i += 1
+                else:
+                    return False
+        elif c == '"':
+            i += 1
+            while True:
+                if i >= n:
+                    return False                      # unterminated, but not inside an escape: reported at len
+                d = text[i]
+                if d == '"':
+                    i += 1
+                    break
+                if d == "\\":
+                    if i + 1 >= n:
+                        return True                   # `\` then the end
+                    e = text[i + 1]
+                    if e in '"\\/bfnrt':
+                        i += 2
+                    elif e == "u":
+                        hs = text[i + 2:i + 6]
+                        if len(hs) < 4:
+                            return all(h in _HEX for h in hs)      # `\u` + 0..3 hex digits then the end
+                        if not all(h in _HEX for h in hs):
+                            return False
+                        i += 6
+                    else:
+                        return False
+                elif d in "\n\r" or not (d >= " " or d == "\t"):
+                    return False
+                else:
+                    i += 1
+        elif c == "-" or c in _DIG:
+            if c == "-":
+                i += 1
+                if i >= n or text[i] not in _DIG:
+                    return False
+            if text[i] == "0":
+                i += 1
+                if i < n and text[i] in _DIG:
+                    return False
+            else:
+                while i < n and text[i] in _DIG:
+                    i += 1
+            if i < n and text[i] == ".":
+                i += 1
+                if i >= n or text[i] not in _DIG:
+                    return False
+                while i < n and text[i] in _DIG:
+                    i += 1
+            if i < n and text[i] in "eE":
+                i += 1
+                if i < n and text[i] in "+-":
+                    i += 1
+                if i >= n or text[i] not in _DIG:
+                    return False
+                while i < n and text[i] in _DIG:
+                    i += 1
+            if i < n and text[i] in _NAME0:
+                return False
+        elif c in _NAME0:
+            while i < n and (text[i] in _NAME0 or text[i] in _DIG):
+                i += 1
+        else:
+            return False
+    return False
+
+
+def oracle_beyond_end(ctx, t, r):
+    """error position = len + 1  <=>  OpenEscape(text)   (theorem error_position_iff_open_escape)"""
+    def odd(x):
+        q = real_lex(x)
+        return q[0] == "syntax" and isinstance(q[1], int) and q[1] > len(x) and not open_escape(x)
+    if isinstance(r[1], int) and r[1] <= len(t) and open_escape(t):
+        # the pinned value len+1 is no longer reported for a member of the class: the PROPERTY is not violated by that (it asks
+        # for positions within the text); only the model's pinned position went stale - recorded, never a failure
+        ctx.stat("beyond-end:open-escape-reported-within")
+        if not _reported.get("l6-stale"):
+            _reported["l6-stale"] = 1
+            ctx.notes.append("C01_lex: a text of the OpenEscape class is reported WITHIN the text (L6 no longer reproduces on "
+                             "this tree; the model keeps the pinned len+1)")
+        return
+    if not odd(t):
+        ctx.stat("beyond-end:%s" % ("open-escape" if r[1] == len(t) + 1 else "within"))
+        return
+    t2 = shrink(t, odd)
+    q = real_lex(t2)
+    ctx.fail("position-beyond-end-outside-open-escape:%s" % classes(t2),
+             "the lexer reports a position beyond the end of a text that does NOT end inside an open quoted string with a "
+             "truncated escape (position %r, len %d): outside the exact class of finding L6" % (q[1], len(t2)),
+             {"part": PART, "kind": "lex", "text": cps(t2)})
+
+
+# ---------------------------------------------------------------------------------------------
 # oracle O1 + correspondence on one batch of texts
 
 def check_texts(ctx, texts, stream, compare_model=True, error_contract=True):
@@ -261,6 +396,7 @@ def check_texts(ctx, texts, stream, compare_model=True, error_contract=True):
                 ctx.nontrivial(("lexerr", t))
             if error_contract:
                 oracle_error_contract(ctx, t, r)
+                oracle_beyond_end(ctx, t, r)
         else:
             t2 = shrink(t, lambda x: real_lex(x) == r)
             ctx.fail("internal:%s:%s" % (r[1], classes(t2)), "lexer raises %s instead of GraphQLSyntaxError" % r[1],
@@ -717,8 +853,10 @@ def run(ctx):
             lexs.append(mutate(rng, t[1]))
     oracle_single_lexemes(ctx, lexs, "generated")
     oracle_number_lookahead(ctx, rng)
+    oracle_spec_readings(ctx)
     oracle_comments(ctx, rng)
     oracle_invalid_utf8(ctx, rng)
+    corr_utf8_decoding(ctx, rng)
     oracle_blockless_definitions(ctx)
 
     # --- mutants and prefixes -----------------------------------------------------------------
@@ -845,7 +983,17 @@ def parse_text_cases(ctx, cases, stream):
         elif m_ok and a["ok"] != want:
             ctx.fail("corr:parse_text:ast-differs:%s:%s" % (e, PP.first_diff(want, a["ok"])),
                      "AST of Lean lexer+parser and Node.to_dict() differ", dict(det, model=str(a["ok"])[:400]), kind="correspondence")
-        elif (not m_ok) and not (a["err"].get("str_ok") and a["err"].get("dict") is not None):
+        elif (not m_ok) and kind == "syntax" and a["err"].get("stage") == "lex" and "lazy_pos" in a["err"]:
+            # a text with a LEXICAL error: the real parser pulls tokens lazily and may report an earlier grammatical error
+            # (ParseLazy.lean, Props/C01_lazy.lean). Positions of rejected texts are not part of the property: the agreement of
+            # the lazy and of the eager model with the reported position is only COUNTED (evidence), never a failure.
+            lz = ctx.extra.setdefault("lazy_window", {"texts_with_lexical_error": 0, "position_as_lazy_model": 0,
+                                                      "position_as_eager_model": 0, "lazy_reports_grammatical_error": 0})
+            lz["texts_with_lexical_error"] += 1
+            lz["position_as_lazy_model"] += int(real[1] == a["err"]["lazy_pos"])
+            lz["position_as_eager_model"] += int(real[1] == a["err"].get("pos"))
+            lz["lazy_reports_grammatical_error"] += int(a["err"].get("lazy_stage") == "parse")
+        if a is not None and (not m_ok) and not (a["err"].get("str_ok") and a["err"].get("dict") is not None):
             ctx.fail("corr:parse_text:model-render", "model rendering of the error position fails", dict(det, model=a), kind="correspondence")
 
 
@@ -1038,6 +1186,84 @@ def oracle_invalid_utf8(ctx, rng):
                                  {"part": PART, "kind": "invalid_utf8", "bytes": list(src), "entry": entry, "class": label, "where": where})
                     else:
                         ctx.nontrivial(("badutf8", entry, src))
+
+
+def real_decode(src):
+    """what Lexer.__init__ makes of a bytes source: ('ok', text) | ('err', position of the InvalidCharacter) | ('internal', Class)"""
+    from py_gql.lang.lexer import Lexer
+    from py_gql.exc import GraphQLSyntaxError, InvalidCharacter
+    try:
+        lx = Lexer(src)
+        return ("ok", lx._source)
+    except InvalidCharacter as e:
+        return ("err", e.position)
+    except GraphQLSyntaxError as e:
+        return ("internal", "other-syntax-error:" + type(e).__name__)
+    except Exception as x:  # noqa
+        return ("internal", type(x).__name__)
+
+
+def corr_utf8_decoding(ctx, rng):
+    """Utf8.decode (model of ensure_unicode / Lexer.__init__ on bytes, theorems decode_encode / parse_bytes_eq_text) against the
+    real code: every invalid class in every frame, every encoded boundary code point, random byte strings and byte-level
+    mutants of valid encodings. Compared: accept / reject, the decoded text, and the character offset the syntax error
+    carries (the value fix C01-B8 defines); Python's own decoder is the reference for the same three."""
+    if not ctx.model_ok:
+        return
+    import random
+    rng = random.Random(int(ctx.seed) * 7919 + 17)    # own stream derived from VERIF_SEED: leaves ctx.rng (and with it every
+    cases = []                                        # other stream of C01_lex / C01_parse) exactly as it was
+    for _, bad in INVALID_UTF8:
+        for pre, post in ((b"", b""), (b"{ a }", b""), (b'{ a(b: "\xc3\xa9', b'") }'), (b"\xf0\x9f\x98\x80", b"x")):
+            cases.append(pre + bad + post)
+    for cp in (0, 0x7F, 0x80, 0x7FF, 0x800, 0xFFF, 0x1000, 0xCFFF, 0xD000, 0xD7FF, 0xE000, 0xFFFD, 0xFFFF, 0x10000, 0x3FFFF, 0x40000,
+               0xFFFFF, 0x100000, 0x10FFFF):
+        cases.append(("a" + chr(cp) + "b").encode("utf8"))
+    for _ in range(ctx.n(300, 3000)):
+        k = rng.random()
+        if k < 0.4:
+            cases.append(bytes(rng.choice([0x00, 0x41, 0x7F, 0x80, 0x9F, 0xA0, 0xBF, 0xC0, 0xC1, 0xC2, 0xDF, 0xE0, 0xE1, 0xEC, 0xED, 0xEE, 0xEF,
+                                           0xF0, 0xF1, 0xF3, 0xF4, 0xF5, 0xFF, 0x8F, 0x90]) for _ in range(rng.randint(1, 6))))
+        else:
+            t = "".join(chr(rng.choice([0x41, 0xE9, 0x7FF, 0x800, 0x20AC, 0xD7FF, 0xE000, 0xFFFF, 0x10000, 0x1F600, 0x10FFFF]))
+                        for _ in range(rng.randint(1, 4)))
+            b = bytearray(t.encode("utf8"))
+            if k < 0.8 and b:
+                i = rng.randrange(len(b))
+                m = rng.random()
+                if m < 0.4:
+                    b[i] = rng.choice([0x80, 0xBF, 0xC0, 0xE0, 0xED, 0xF0, 0xF4, 0xFF, 0x28])
+                elif m < 0.7:
+                    del b[i]
+                else:
+                    del b[i:]
+            cases.append(bytes(b))
+    cases = [c for c in cases if c]
+    answers = ctx.driver.ask([{"op": "decode_utf8", "bytes": list(c)} for c in cases])
+    for src, a in zip(cases, answers):
+        ctx.count()
+        try:
+            ref = ("ok", src.decode("utf8"))
+        except UnicodeDecodeError as e:
+            ref = ("err", len(src[:e.start].decode("utf8")))
+        real = real_decode(src)
+        model = ("ok", from_cps(a["ok"])) if "ok" in a else ("err", a.get("err"))
+        ctx.stat("utf8:%s" % ref[0])
+        if ref[0] == "err" or any(ord(ch) > 0x7F for ch in ref[1]):
+            ctx.nontrivial(("utf8", src))
+        if real[0] == "internal":
+            ctx.fail("invalid-utf8-bytes:%s" % real[1], "Lexer(bytes) raises %s" % real[1],
+                     {"part": PART, "kind": "invalid_utf8", "bytes": list(src), "entry": "lexer"})
+        elif real != model:
+            ctx.fail("corr:utf8-decoding:%s-vs-%s" % (real[0], model[0]),
+                     "Lexer.__init__ on a bytes source and the model Utf8.decode differ (text / reject / character offset)",
+                     {"part": PART, "kind": "utf8", "bytes": list(src), "impl": repr(real)[:200], "model": repr(model)[:200]},
+                     kind="correspondence")
+        elif ref != model:
+            ctx.fail("corr:utf8-decoding:python-decoder:%s-vs-%s" % (ref[0], model[0]),
+                     "bytes.decode('utf8') and the model Utf8.decode differ",
+                     {"part": PART, "kind": "utf8", "bytes": list(src), "impl": repr(ref)[:200], "model": repr(model)[:200]},
+                     kind="correspondence")
 
 
 BLOCKLESS_CASES = [
@@ -1239,6 +1465,60 @@ def oracle_number_lookahead(ctx, rng):
         elif a[1].to_dict() != b[1].to_dict():
             ctx.fail("number-name-glued-tree-differs:%s" % entry, "glued and spaced texts parse to different trees",
                      {"part": PART, "kind": "glued_parse", "text": cps(glued), "spaced": cps(spaced), "entry": entry})
+
+
+# (glued text, the same with a space at the seam) - deterministic named probes of the two other pinned readings
+LA3_CASES = [('""""', '"" ""'), ('"""a"', '"" "a"'), ('"""\\n"', '"" "\\n"'), ('a """"', 'a "" ""')]
+LA3_PARSE_CASES = [("value", '[""""]', '["" ""]'), ("value", '["""a"]', '["" "a"]'), ("document", '{a(x:["""b"])}', '{a(x:["" "b"])}')]
+LA4_CASES = [("00", "0 0"), ("01", "0 1"), ("-007", "-0 0 7"), ("00.5", "0 0.5"), ("-00", "-0 0"), ("0 00", "0 0 0"), ("00e1", "0 0e1")]
+LA4_PARSE_CASES = [("value", "[00]", "[0 0]"), ("value", "[-007]", "[-0 0 7]"), ("value", "[00.5]", "[0 0.5]"),
+                   ("document", "{a(x:[01])}", "{a(x:[0 1])}")]
+
+
+def oracle_spec_readings(ctx):
+    # LA3 / LA4 (Spec/LexicalReadings.lean, Props/C01_readings.lean): June 2018 read with plain maximal munch derives four
+    # quotes as two empty strings and `00` as `0` `0`; the lexer rejects both (three quotes always open a block string - the
+    # dispatch before `_read_string`, pinned by test_lexer.py::test_useful_string_errors[four quotes]; no digit after the
+    # integer part `0` - `_read_over_integer`, pinned by test_useful_number_errors['00', '01']); graphql-js does the same.
+    # Named probes; known findings LA3 / LA4. The spaced text must always be accepted, and the glued one must never be
+    # accepted with other tokens than the spaced one.
+    from corr import C01_parse as PP
+    for sig, what, cases, pcases in (
+            ("empty-string-lookahead:adjacent-string-rejected",
+             "an empty string directly followed by a string is rejected (three quotes always open a block string) although "
+             "the same text with a space in between is accepted", LA3_CASES, LA3_PARSE_CASES),
+            ("zero-lookahead:leading-zero-rejected",
+             "the integer part 0 directly followed by a digit is rejected although the same text with a space in between is "
+             "accepted", LA4_CASES, LA4_PARSE_CASES)):
+        for glued, spaced in cases:
+            ctx.count()
+            rg, rs = real_lex(glued), real_lex(spaced)
+            ctx.stat("readings:%s:%s" % (sig.split(":")[0], rg[0]))
+            ctx.nontrivial(("reading", glued))
+            if rg[0] == "internal" or rs[0] != "ok":
+                ctx.fail("internal:%s:%s" % (rg[1], classes(glued)), "lexer misbehaves on the named probe of a spec reading",
+                         {"part": PART, "kind": "lex", "text": cps(glued)})
+            elif rg[0] == "syntax":
+                ctx.fail(sig, what, {"part": PART, "kind": "glued", "text": cps(glued), "spaced": cps(spaced)})
+            elif [(x[0], x[3]) for x in rg[1]] != [(x[0], x[3]) for x in rs[1]]:
+                ctx.fail("reading-glued-tokens-differ:%s:%s" % (sig.split(":")[0], classes(glued)),
+                         "the glued text is accepted with other tokens than the spaced one",
+                         {"part": PART, "kind": "glued", "text": cps(glued), "spaced": cps(spaced)})
+        for entry, glued, spaced in pcases:
+            ctx.count()
+            fl = dict(FLAG0, no_location=True)
+            a, b = PP.real_parse(glued, entry, fl), PP.real_parse(spaced, entry, fl)
+            if a[0].startswith("internal") or b[0] != "ok":
+                ctx.fail("internal:%s:reading-parse" % a[0], "parser misbehaves on the named probe of a spec reading",
+                         {"part": PART, "kind": "glued_parse", "text": cps(glued), "spaced": cps(spaced), "entry": entry})
+            elif a[0] == "syntax":
+                ctx.fail(sig + ":parse", what, {"part": PART, "kind": "glued_parse", "text": cps(glued), "spaced": cps(spaced),
+                                                "entry": entry})
+            elif a[1].to_dict() != b[1].to_dict():
+                ctx.fail("reading-glued-tree-differs:%s:%s" % (sig.split(":")[0], entry),
+                         "glued and spaced texts parse to different trees",
+                         {"part": PART, "kind": "glued_parse", "text": cps(glued), "spaced": cps(spaced), "entry": entry})
+    check_texts(ctx, [g for g, _ in LA3_CASES + LA4_CASES] + [s for _, s in LA3_CASES + LA4_CASES], "readings")
 
 
 def real_loc(body, pos):
